@@ -88,6 +88,24 @@ type Rule struct {
 	Rcode int
 	// Exact selects the |D^ (exact host) form of a rewrite rule.
 	Exact bool
+	// TargetCaps spells the CNAME target with capitals in the rule text.
+	TargetCaps bool
+}
+
+// TargetText is the CNAME target as spelled in the rule.
+func (r Rule) TargetText() string {
+	if !r.TargetCaps {
+		return r.Target
+	}
+
+	b := []byte(r.Target)
+	for i := 0; i < len(b); i += 2 {
+		if b[i] >= 'a' && b[i] <= 'z' {
+			b[i] -= 'a' - 'A'
+		}
+	}
+
+	return string(b)
 }
 
 func (r Rule) dtext() string {
@@ -143,10 +161,10 @@ func (r Rule) Text() string {
 		return r.pat() + "$dnsrewrite=" + r.IP.String()
 	case KRwCNAME:
 		if r.Long {
-			return r.pat() + "$dnsrewrite=NOERROR;CNAME;" + r.Target
+			return r.pat() + "$dnsrewrite=NOERROR;CNAME;" + r.TargetText()
 		}
 
-		return r.pat() + "$dnsrewrite=" + r.Target
+		return r.pat() + "$dnsrewrite=" + r.TargetText()
 	case KRwRcode:
 		return r.pat() + "$dnsrewrite=" + dns.RcodeToString[r.Rcode]
 	default:
@@ -386,7 +404,13 @@ func (o Observed) String() string {
 // rewriteOutcomes returns the acceptable outcomes of the rewrite rules of l for
 // the question, nil if none matches.  byHost makes the reported rule the host
 // (safe-search lists).
-func rewriteOutcomes(l *List, host string, qt uint16, byHost bool) (outs []Outcome) {
+//
+// self reports that a matching CNAME rule points at the queried name itself
+// (compared without regard to letter case): that is "a rewrite of a host to
+// itself", not a rewrite, so if that rule is the one taken, the list yields
+// nothing and the evaluation goes on.  Since a CNAME rule has priority over
+// address values, the addresses of such a list are not applied either.
+func rewriteOutcomes(l *List, host string, qt uint16, byHost bool) (outs []Outcome, self bool) {
 	var ipRules, other []Rule
 	for _, r := range l.Rules {
 		if !r.IsRewrite() || !r.Matches(host, qt) {
@@ -409,8 +433,14 @@ func rewriteOutcomes(l *List, host string, qt uint16, byHost bool) (outs []Outco
 	}
 
 	for _, r := range other {
+		if r.Kind == KRwCNAME && strings.EqualFold(r.Target, host) {
+			self = true
+
+			continue
+		}
+
 		if r.Kind == KRwCNAME {
-			outs = append(outs, Outcome{Kind: ORwCNAME, List: l.ID, Target: r.Target, Rules: rules(r)})
+			outs = append(outs, Outcome{Kind: ORwCNAME, List: l.ID, Target: r.TargetText(), Rules: rules(r)})
 		} else {
 			outs = append(outs, Outcome{Kind: ORwRcode, List: l.ID, Rcode: r.Rcode, Rules: rules(r)})
 		}
@@ -434,7 +464,26 @@ func rewriteOutcomes(l *List, host string, qt uint16, byHost bool) (outs []Outco
 		outs = append(outs, o)
 	}
 
-	return outs
+	return outs, self
+}
+
+// rewritePhase evaluates the rewrite rules of lists in order.  through reports
+// that the evaluation may go on past all of them (no list has a rewrite, or
+// those that have may count as rewrites of the host to itself).
+func rewritePhase(lists []*List, host string, qt uint16, byHost bool) (outs []Outcome, through bool) {
+	for _, l := range lists {
+		if l == nil {
+			continue
+		}
+
+		cands, self := rewriteOutcomes(l, host, qt, byHost)
+		outs = append(outs, cands...)
+		if len(cands) > 0 && !self {
+			return outs, false
+		}
+	}
+
+	return outs, true
 }
 
 // basic evaluates allow / block / hosts rules of the sources for one name.
@@ -506,19 +555,19 @@ func safeSearchable(qt uint16) bool {
 }
 
 // safety evaluates the request filters in the documented order.
-func (c *Config) safety(host string, qt uint16) (outs []Outcome) {
+func (c *Config) safety(host string, qt uint16) (outs []Outcome, none bool) {
 	if !safeSearchable(qt) {
-		return nil
+		return nil, true
 	}
 
-	hash := func(h *Hash) (outs []Outcome) {
+	hash := func(h *Hash) (outs []Outcome, through bool) {
 		if h == nil {
-			return nil
+			return nil, true
 		}
 
 		m := h.match(host)
 		if len(m) == 0 {
-			return nil
+			return nil, true
 		}
 
 		o := Outcome{List: h.ID, Rules: m}
@@ -533,30 +582,28 @@ func (c *Config) safety(host string, qt uint16) (outs []Outcome) {
 			o.Kind = OSafeEmpty
 		}
 
-		return []Outcome{o}
+		return []Outcome{o}, false
 	}
 
-	ss := func(l *List) (outs []Outcome) {
-		if l == nil {
-			return nil
-		}
-
-		return rewriteOutcomes(l, host, qt, true)
+	ss := func(l *List) (outs []Outcome, through bool) {
+		return rewritePhase([]*List{l}, host, qt, true)
 	}
 
-	for _, f := range []func() []Outcome{
-		func() []Outcome { return hash(c.Dangerous) },
-		func() []Outcome { return hash(c.Adult) },
-		func() []Outcome { return ss(c.GenSS) },
-		func() []Outcome { return ss(c.YTSS) },
-		func() []Outcome { return hash(c.NewReg) },
+	for _, f := range []func() ([]Outcome, bool){
+		func() ([]Outcome, bool) { return hash(c.Dangerous) },
+		func() ([]Outcome, bool) { return hash(c.Adult) },
+		func() ([]Outcome, bool) { return ss(c.GenSS) },
+		func() ([]Outcome, bool) { return ss(c.YTSS) },
+		func() ([]Outcome, bool) { return hash(c.NewReg) },
 	} {
-		if outs = f(); len(outs) > 0 {
-			return outs
+		fo, through := f()
+		outs = append(outs, fo...)
+		if !through {
+			return outs, false
 		}
 	}
 
-	return nil
+	return outs, true
 }
 
 // EvalRequest returns the acceptable verdicts on a question.  host is lower
@@ -569,22 +616,21 @@ func (c *Config) EvalRequest(host string, qt uint16) (outs []Outcome) {
 
 	// 1. A DNS-rewrite rule wins outright: custom first, then the shared lists
 	// in their configured order.  Service lists are not a source of rewrites.
-	var rw []*List
-	if c.Custom != nil {
-		rw = append(rw, c.Custom)
+	rw := append([]*List{c.Custom}, c.Shared...)
+	outs, through := rewritePhase(rw, host, qt, false)
+	if !through {
+		return outs
 	}
 
-	rw = append(rw, c.Shared...)
-	for _, l := range rw {
-		if outs = rewriteOutcomes(l, host, qt, false); len(outs) > 0 {
-			return outs
-		}
-	}
+	return append(outs, c.evalBasic(host, qt)...)
+}
 
+// evalBasic is the evaluation after the rewrites: allow, block, safety filters.
+func (c *Config) evalBasic(host string, qt uint16) (outs []Outcome) {
 	// 2. Allow beats block across all rule sources.
 	srcs := c.ruleSources()
 	b := basic(srcs, host, qt)
-	safe := c.safety(host, qt)
+	safe, safeNone := c.safety(host, qt)
 
 	if len(b.allow) > 0 {
 		_, customAllows := b.allow[c.Custom]
@@ -610,15 +656,15 @@ func (c *Config) EvalRequest(host string, qt uint16) (outs []Outcome) {
 			}
 		}
 
-		// Some other list allows as well; if that one is taken as deciding,
-		// the safety filters apply.
-		if len(safe) > 0 {
-			return append(outs, safe...)
-		}
-
-		for _, o := range outcomesOf(OAllowed, srcs, b.allow) {
-			if o.List != IDCustom || !customAllows {
-				outs = append(outs, o)
+		// Some other list's allow rule is (or may be) the deciding one: the
+		// safety filters apply, and if none of them has a verdict the
+		// question is allowed.
+		outs = append(outs, safe...)
+		if safeNone {
+			for _, o := range outcomesOf(OAllowed, srcs, b.allow) {
+				if o.List != IDCustom || !customAllows {
+					outs = append(outs, o)
+				}
 			}
 		}
 
@@ -630,11 +676,12 @@ func (c *Config) EvalRequest(host string, qt uint16) (outs []Outcome) {
 	}
 
 	// 3. Safety filters.
-	if len(safe) > 0 {
-		return safe
+	outs = append(outs, safe...)
+	if safeNone {
+		outs = append(outs, Outcome{Kind: ONone})
 	}
 
-	return none
+	return outs
 }
 
 // AnswerName is one name derived from an answer record, as the response side
@@ -826,14 +873,16 @@ func KindSet(outs []Outcome) string {
 // in effect contains a textually equal allow rule; and a safety filter in
 // effect matches the host.
 func (c *Config) OwnAllowEqualsShared(host string, qt uint16) bool {
-	if c == nil || c.Custom == nil || len(c.safety(host, qt)) == 0 {
+	if c == nil || c.Custom == nil {
 		return false
 	}
 
-	for _, l := range append([]*List{c.Custom}, c.Shared...) {
-		if len(rewriteOutcomes(l, host, qt, false)) > 0 {
-			return false
-		}
+	if safe, _ := c.safety(host, qt); len(safe) == 0 {
+		return false
+	}
+
+	if outs, _ := rewritePhase(append([]*List{c.Custom}, c.Shared...), host, qt, false); len(outs) > 0 {
+		return false
 	}
 
 	own := map[string]bool{}
@@ -852,4 +901,32 @@ func (c *Config) OwnAllowEqualsShared(host string, qt uint16) bool {
 	}
 
 	return false
+}
+
+// SelfRewriteSpellings returns the spellings, as in the rule texts, of the
+// targets of the CNAME rewrite rules in effect that match the question and
+// point at the queried name itself.
+func (c *Config) SelfRewriteSpellings(host string, qt uint16) (ss []string) {
+	if c == nil {
+		return nil
+	}
+
+	lists := append([]*List{c.Custom}, c.Shared...)
+	if safeSearchable(qt) {
+		lists = append(lists, c.GenSS, c.YTSS)
+	}
+
+	for _, l := range lists {
+		if l == nil {
+			continue
+		}
+
+		for _, r := range l.Rules {
+			if r.Kind == KRwCNAME && r.Matches(host, qt) && strings.EqualFold(r.Target, host) {
+				ss = append(ss, r.TargetText())
+			}
+		}
+	}
+
+	return ss
 }
